@@ -132,6 +132,15 @@ def r_C23(root):
             covers = isinstance(first_guard, ast.If) and "not isinstance(rule, RuleCrossRef)" not in ast.unparse(first_guard.test) and " in resolved_rules" in ast.unparse(first_guard.test)
             if not (pre or covers):
                 out.append(Finding("C23", "C23.e", L, "_resolve_rule", ast.unparse(stmt_of(c))[:80], "recursion along rule cross-references has no cycle check (A: A; recurses until RecursionError)", witness="A: A;"))
+            # the cycle check must look at the whole chain of names being resolved: membership in the collection itself
+            # (a slice / the last element only catches A: A; but not A: B; B: A;), and that collection is pushed before the recursion
+            for s_ in pre:
+                for cmp_ in [x for x in ast.walk(s_.test) if isinstance(x, ast.Compare) and len(x.ops) == 1 and isinstance(x.ops[0], ast.In)]:
+                    coll = cmp_.comparators[0]
+                    whole = isinstance(coll, ast.Name) and any(isinstance(k, ast.Call) and isinstance(k.func, ast.Attribute) and k.func.attr in ("append", "add") and isinstance(k.func.value, ast.Name) and k.func.value.id == coll.id and k.lineno < c.lineno for k in ast.walk(rr))
+                    ob("C23", "C23.e", L, "_resolve_rule", "cycle check: %s" % ast.unparse(cmp_), whole)
+                    if not whole:
+                        out.append(Finding("C23", "C23.e", L, "_resolve_rule", ast.unparse(cmp_)[:80], "the cycle check does not test membership in the whole chain of rules being resolved (%s): a cycle through two or more alias rules recurses until RecursionError" % ast.unparse(coll)[:40], witness="A: B; B: A;"))
     return inst, out
 def r_C03bc(root):
     out = []; inst = 0
